@@ -22,7 +22,8 @@ class PartReader(Reader):
         # and select the ones to be read if specified by user
         fname = os.path.join(meta["infile"], "part_file_descriptor.txt")
         try:
-            desc_from_file = np.loadtxt(fname, dtype=str, delimiter=",")
+            # ndmin=2: a descriptor with a single variable is still a table
+            desc_from_file = np.loadtxt(fname, dtype=str, delimiter=",", ndmin=2)
         except IOError:
             return
 
